@@ -1,6 +1,7 @@
 """C07 - the stored result faithfully reflects the outcome of the execution."""
 import common as C
 import pipeline_lib as L
+import srctie
 
 META = dict(
     id="C07",
@@ -57,6 +58,10 @@ ORACLES = [L.oracle_c07]
 def run(ctx):
     rep = C.Report(ctx, META)
     rep.add_obligations(C.proof_obligations("C07"))
+    # source tie: Receiver.callback re-translated from the source text; srcproofs/Src_callback_*.v re-checked against it
+    src_obs, src_info = srctie.obligations(ctx, "callback", "C07")
+    rep.add_obligations(src_obs)
+    rep.extra["source_tie"] = src_info
     L.explore(ctx, rep, "C07", L.load_corpus_cases("C07"), "corpus", ORACLES, nontrivial)
     r = ctx.sub_rng("gen")
     broken = L.explore(ctx, rep, "C07", [L.gen_recv(r, "c07") for _ in range(ctx.n(900, 20000))], "main", ORACLES,
